@@ -7,6 +7,14 @@ FF = "\x0c"
 
 WILD = {
     "TypeScript": {
+        "curried-and-immediately-invoked": """const add = (a: number) => (b: number): number => {
+  return a + b;
+};
+const job = (async (): Promise<void> => {
+  await run();
+})();
+export const selectTotal = (state: State) => (id: string) => state.items[id];
+""",
         "generic-functions": """function pick<T extends Record<string, number>>(obj: T) {
   return obj;
 }
@@ -87,6 +95,18 @@ export class C {
 """,
     },
     "JavaScript": {
+        "curried-and-immediately-invoked": """const add = (a) => (b) => {
+  return a + b;
+};
+const pipe = (...fns) => (x) => fns.reduce((v, f) => f(v), x);
+const job = (async () => {
+  await run();
+})();
+const handler = useCallback((e) => (dispatch) => {
+  dispatch(e);
+}, []);
+export const selectTotal = (state) => (id) => state.items[id];
+""",
         "several-functions-per-line": """const a = () => { return 1; }; function b() { return 2; }
 function c() { return 3; } const d = (x) => { return x; };
 const api = { open() { return 1; }, close() { return 2; } };
